@@ -30,10 +30,10 @@ Proof.
 Qed.
 
 (* transitivity fails as soon as a float is involved: 2^53+1 ~ 2^53 as a double ~ 2^53, and 1/3 ~ its single
-   rounding, 1/3 ~ its double rounding, for eql, equal and equalp alike; the three objects are well-formed
-   and tame, only nofloat fails *)
+   rounding, 1/3 ~ its double rounding, for eql, equal and equalp alike; the three objects are well-formed,
+   only nofloat fails *)
 Lemma transitivity_with_floats_refuted :
-  (forallb (fun r => wf (r_obj r) && tame (r_obj r)) [w_a; w_b; w_c; w_third; w_third_s; w_third_d] = true) /\
+  (forallb (fun r => wf (r_obj r)) [w_a; w_b; w_c; w_third; w_third_s; w_third_d] = true) /\
   all_consistent [w_a; w_b; w_c] /\ all_consistent [w_third; w_third_s; w_third_d] /\
   (eql_m w_a w_b = true /\ eql_m w_b w_c = true /\ eql_m w_a w_c = false) /\
   (equal_m w_a w_b = true /\ equal_m w_b w_c = true /\ equal_m w_a w_c = false) /\
@@ -47,36 +47,60 @@ Proof.
   vm_compute. repeat split; reflexivity.
 Qed.
 
-(* symmetry fails between a bignum outside int64 and a ratio with a large numerator *)
-Lemma symmetry_bignum_ratio_refuted :
-  wf (r_obj w_big) = true /\ wf (r_obj w_rat) = true /\ tame (r_obj w_rat) = false /\
-  eql_m w_big w_rat = true /\ eql_m w_rat w_big = false /\
-  equal_m w_big w_rat = true /\ equal_m w_rat w_big = false /\
-  equalp_m w_big w_rat = true /\ equalp_m w_rat w_big = false.
+(* a bignum outside int64 and a ratio are compared exactly, in both orders (finding
+   C16-eql-bignum-ratio-not-symmetric, repaired by C16-11: 2^79 was eql to (2^80+3)/2 in one order only) *)
+Lemma bignum_ratio_exact :
+  wf (r_obj w_big) = true /\ wf (r_obj w_rat) = true /\
+  eql_m w_big w_rat = false /\ eql_m w_rat w_big = false /\
+  equalp_m w_big w_rat = false /\ equalp_m w_rat w_big = false /\
+  eql_m w_big (mkref (Rat (2 ^ 80) 2) 3) = true /\ eql_m (mkref (Rat (2 ^ 80) 2) 3) w_big = true.
 Proof. vm_compute. repeat split; reflexivity. Qed.
 
-(* equal objects with different sxhash codes: k and KELVIN SIGN (equal by strings.EqualFold), and the
-   bignum 2^79 with the ratio (2^80+3)/2 that rounds to it *)
-Lemma sxhash_kelvin_refuted :
-  equal_m w_k w_kelvin = true /\ sxhash_m (r_obj w_k) = Some 75%N /\ sxhash_m (r_obj w_kelvin) = Some 464%N /\
-  hash_dom (r_obj w_kelvin) = false.
+(* equal objects now have equal sxhash codes where they used to differ: k and KELVIN SIGN (finding
+   C16-sxhash-ignores-only-ascii-case, repaired by C16-9), 1000000 as a fixnum, a double and a single, 1/2 and 0.5
+   (finding C16-sxhash-differs-across-number-representations, repaired by C16-10) *)
+Definition w_mil := mkref (Fix 1000000) 0.
+Definition w_mil_d := mkref (Flt FDouble 15625 6) 1.
+Definition w_mil_s := mkref (Flt FSingle 15625 6) 2.
+Lemma sxhash_repaired :
+  equal_m w_k w_kelvin = true /\ sxhash_m (r_obj w_k) = sxhash_m (r_obj w_kelvin) /\
+  sxhash_m (r_obj w_kelvin) = Some (mk_hcode 75 []) /\
+  equal_m w_mil w_mil_d = true /\ equal_m w_mil w_mil_s = true /\
+  sxhash_m (r_obj w_mil) = sxhash_m (r_obj w_mil_d) /\ sxhash_m (r_obj w_mil) = sxhash_m (r_obj w_mil_s) /\
+  hash_dom true (r_obj w_mil) = true /\ hash_dom true (r_obj w_mil_d) = true /\
+  equal_m (mkref (Rat 1 2) 0) (mkref (Flt FDouble 1 (-1)) 1) = true /\
+  sxhash_m (Rat 1 2) = sxhash_m (Flt FDouble 1 (-1)) /\ hash_dom true (Rat 1 2) = true /\
+  sxhash_m (Fix 123456) = Some (mk_hcode 117 []).
 Proof. vm_compute. repeat split; reflexivity. Qed.
-Lemma sxhash_bignum_ratio_refuted :
-  equal_m w_big w_rat = true /\ sxhash_m (r_obj w_big) <> sxhash_m (r_obj w_rat) /\
-  (exists h, sxhash_m (r_obj w_big) = Some h) /\ (exists h, sxhash_m (r_obj w_rat) = Some h) /\
-  hash_dom (r_obj w_rat) = false.
+
+(* outside the guard of the sxhash theorem: a fixnum beyond 2^53 is equal to the single-float it converts to
+   directly and to the double-float it converts to, which differ; sxhash (which sees the fixnum through
+   float64 and then float32) agrees with the double and not with the single.  No code could agree with both
+   unless it also identified the two floats: a consequence of the float findings. *)
+Definition w_f60 := mkref (Fix (2 ^ 60 + 2 ^ 36 + 1)) 0.
+Definition w_s60 := mkref (Flt FSingle (2 ^ 23 + 1) 37) 1.
+Definition w_d60 := mkref (Flt FDouble (2 ^ 24 + 1) 36) 2.
+Lemma sxhash_rounding_refuted :
+  wf (r_obj w_f60) = true /\ equal_m w_f60 w_s60 = true /\ equal_m w_f60 w_d60 = true /\ equal_m w_s60 w_d60 = false /\
+  sxhash_m (r_obj w_f60) = sxhash_m (r_obj w_d60) /\ sxhash_m (r_obj w_f60) <> sxhash_m (r_obj w_s60) /\
+  hash_dom true (r_obj w_f60) = false /\ hash_dom false (r_obj w_s60) = false.
 Proof.
-  split; [vm_compute; reflexivity|]. split; [vm_compute; discriminate|].
-  split; [eexists; vm_compute; reflexivity|]. split; [eexists; vm_compute; reflexivity|]. reflexivity.
+  split; [vm_compute; reflexivity|]. split; [vm_compute; reflexivity|]. split; [vm_compute; reflexivity|].
+  split; [vm_compute; reflexivity|]. split; [vm_compute; reflexivity|]. split; [vm_compute; discriminate|].
+  split; vm_compute; reflexivity.
 Qed.
 
 (* ---- hash tables outside the guard --------------------------------------------------------------------- *)
+(* bignum and ratio keys (findings C16-hash-bignum-key-by-pointer / C16-hash-ratio-key-by-pointer, repaired by
+   C16-5): separately allocated copies of one value are one key *)
 Definition e20 : Z := 100000000000000000000.
-Definition pool_big : list ref := [mkref (Big e20) 0; mkref (Big e20) 1].
-Lemma table_bignum_key_refuted :
-  t_run pool_big [] [HPut 0 1; HGet 1; HPut 1 2; HCount] = [OVal 1; OGet None; OVal 2; ONum 2] /\
-  s_run pool_big (pool_test 1 pool_big) [] [HPut 0 1; HGet 1; HPut 1 2; HCount] = [OVal 1; OGet (Some 1); OVal 2; ONum 1] /\
-  pool_coherent pool_big (pool_test 1 pool_big) = false /\ pool_equiv pool_big (pool_test 1 pool_big) = true.
+Definition pool_big : list ref := [mkref (Big e20) 0; mkref (Big e20) 1; mkref (Rat 1 2) 2; mkref (Rat 1 2) 3; mkref (Big (e20 + 1)) 4].
+Definition ops_big : list hop := [HPut 0 1; HGet 1; HPut 1 2; HCount; HPut 2 7; HGet 3; HGet 4; HMap; HRem 3; HCount; HGet 2].
+Lemma table_bignum_key_by_value :
+  t_run pool_big [] ops_big =
+    [OVal 1; OGet (Some 1); OVal 2; ONum 1; OVal 7; OGet (Some 7); OGet None; OEntries [(0%nat, 2); (2%nat, 7)]; OBool true; ONum 1; OGet None] /\
+  s_run pool_big (pool_test 1 pool_big) [] ops_big = t_run pool_big [] ops_big /\
+  simple_pool pool_big = true /\ pool_ok pool_big (pool_test 1 pool_big) = true.
 Proof. vm_compute. repeat split; reflexivity. Qed.
 
 Definition pool_flt : list ref := [mkref (Fix 5) 0; mkref (Flt FDouble 5 0) 1].
@@ -86,11 +110,15 @@ Lemma table_float_key_refuted :
   pool_coherent pool_flt (pool_test 1 pool_flt) = false /\ pool_equiv pool_flt (pool_test 1 pool_flt) = true.
 Proof. vm_compute. repeat split; reflexivity. Qed.
 
-Definition pool_lst : list ref := [mkref (Lst [Fix 1; Fix 2]) 0].
-Lemma table_list_key_faults_refuted :
-  t_run pool_lst [] [HPut 0 1; HGet 0] = [OFault; OFault] /\
-  s_run pool_lst (pool_test 1 pool_lst) [] [HPut 0 1; HGet 0] = [OVal 1; OGet (Some 1)] /\
-  pool_hashable pool_lst = false.
+(* a list key (formerly a host fault, finding C16-hash-list-key-faults, repaired by C16-4): every operation on
+   it signals a type-error and leaves the table alone; the pool is inside the guard and the model's
+   observations are the specification's *)
+Definition pool_lst : list ref := [mkref (Lst [Fix 1; Fix 2]) 0; mkref (Fix 7) 1; mkref (Lst [Fix 1; Fix 2]) 0].
+Definition ops_lst : list hop := [HPut 0 1; HGet 0; HPut 1 5; HRem 2; HCount; HGet 1; HMap].
+Lemma table_list_key_refused :
+  t_run pool_lst [] ops_lst = [OTypeErr; OTypeErr; OVal 5; OTypeErr; ONum 1; OGet (Some 5); OEntries [(1%nat, 5)]] /\
+  s_run pool_lst (pool_test 1 pool_lst) [] ops_lst = t_run pool_lst [] ops_lst /\
+  pool_ok pool_lst (pool_test 1 pool_lst) = true.
 Proof. vm_compute. repeat split; reflexivity. Qed.
 
 (* ---- non-vacuity ------------------------------------------------------------------------------------------ *)
@@ -101,13 +129,13 @@ Definition ex_y := mkref (Lst [Str [65; 98]%N; Big 7; Vec [Sym [88]%N; Rat 1 2];
 Definition ex_z := mkref (Lst [Str [65; 66]%N; Fix 7; Vec [Sym [120]%N; Rat 1 2]; Lst [Chr 99; Tl (Fix 1)]]) 2.
 Lemma guards_nonvacuous :
   forallb (fun r => trans_guard (r_obj r)) [ex_x; ex_y; ex_z] = true /\
-  hash_dom (Lst [Str [97; 98]%N; Fix 7]) = true /\ hash_dom (Lst [Str [65; 66]%N; Big 7]) = true /\
+  hash_dom false (Lst [Str [97; 98]%N; Fix 7]) = true /\ hash_dom true (Lst [Str [65; 66]%N; Big 7]) = true /\
   all_consistent [ex_x; ex_y; ex_z] /\
   eq_m ex_x ex_y = false /\ eql_m ex_x ex_y = false /\ equal_m ex_x ex_y = true /\ equal_m ex_y ex_z = true /\
   equal_m ex_x ex_z = true /\ equalp_m ex_x ex_z = true /\
   equal_m (mkref (Chr 99) 0) (mkref (Chr 67) 1) = false /\ equalp_m (mkref (Chr 99) 0) (mkref (Chr 67) 1) = true /\
   sxhash_m (Lst [Str [97; 98]%N; Fix 7]) = sxhash_m (Lst [Str [65; 66]%N; Big 7]) /\
-  sxhash_m (Lst [Str [97; 98]%N; Fix 7]) = Some 338%N.
+  sxhash_m (Lst [Str [97; 98]%N; Fix 7]) = Some (mk_hcode 338 []).
 Proof.
   split; [vm_compute; reflexivity|]. split; [vm_compute; reflexivity|]. split; [vm_compute; reflexivity|].
   split; [apply distinct_words_consistent; vm_compute; repeat constructor; simpl; intuition discriminate|].
